@@ -11,6 +11,8 @@ import (
 	"math/rand"
 	"os"
 	"regexp"
+	"runtime"
+	"runtime/debug"
 	"strconv"
 	"strings"
 	"time"
@@ -172,6 +174,45 @@ func poolProbe15(k int) string {
 	return ""
 }
 
+// every GetBlockScope matched by exactly one PutBlockScope, on every exit path: with one P and the
+// collector off, sync.Pool is a plain LIFO store, so after seeding it with K known objects and running
+// procedures (each root scope closed by the harness, as nothing else owns it), the next K Gets must
+// return exactly the seeded objects: a missing release shows up as a brand-new object, a double
+// release as a repeated one
+func poolBalanceProbe15(dir string, progs [][]parser.Statement) string {
+	const K = 96
+	old := runtime.GOMAXPROCS(1)
+	defer runtime.GOMAXPROCS(old)
+	gc := debug.SetGCPercent(-1)
+	defer debug.SetGCPercent(gc)
+	seeded := map[*query.SyncMap]bool{}
+	var bs []query.BlockScope
+	for i := 0; i < K; i++ {
+		b := query.GetBlockScope()
+		bs = append(bs, b)
+		seeded[b.Variables.SyncMap] = true
+	}
+	for _, b := range bs {
+		query.PutBlockScope(b)
+	}
+	for _, stmts := range progs {
+		res := runLib15(dir, stmts, 0)
+		res.proc.Close()
+	}
+	seen := map[*query.SyncMap]bool{}
+	for i := 0; i < K; i++ {
+		b := query.GetBlockScope()
+		if !seeded[b.Variables.SyncMap] {
+			return fmt.Sprintf("after %d procedures the pool no longer holds the %d seeded block scopes (Get #%d returned a new object): some CreateChild was not matched by a CloseCurrentBlock", len(progs), K, i)
+		}
+		if seen[b.Variables.SyncMap] {
+			return "the pool handed out the same block scope twice"
+		}
+		seen[b.Variables.SyncMap] = true
+	}
+	return ""
+}
+
 func runC15(seed int64, tier string, out string) {
 	r := rand.New(rand.NewSource(seed))
 	meta := newMeta("C15", seed)
@@ -203,6 +244,8 @@ func runC15(seed int64, tier string, out string) {
 	distinct := map[string]bool{}
 	id := 0
 	maxProbe := 0
+	var balanceProgs [][]parser.Statement
+	var balanceSQL []string
 
 	parse := func(sql string) ([]parser.Statement, error) {
 		stmts, _, err := parser.Parse(sql, "", false, false)
@@ -226,6 +269,10 @@ func runC15(seed int64, tier string, out string) {
 		printed, okp := parsePrinted(res.stdout)
 		ocoq, oshow := outcome15(res.flow, res.err)
 		d := depth15(prog)
+		if len(balanceProgs) < 80 && !res.timeout {
+			balanceProgs = append(balanceProgs, stmts)
+			balanceSQL = append(balanceSQL, sql)
+		}
 		if d > maxProbe {
 			maxProbe = d
 		}
@@ -295,6 +342,20 @@ func runC15(seed int64, tier string, out string) {
 	// ---- concurrent invocations: user functions in the select list / WHERE of a big table ------------
 	for i := 0; i < nRows; i++ {
 		id = c15Rows(g, sc, w, meta, id, i, i < nRowsBin)
+	}
+
+	// ---- creates and releases balance (incl. error paths, early exits) --------------------------------
+	for lo := 0; lo < len(balanceProgs); lo += 20 {
+		hi := lo + 20
+		if hi > len(balanceProgs) {
+			hi = len(balanceProgs)
+		}
+		meta.Evaluations++
+		meta.Distribution["pool-balance-probe"]++
+		if msg := poolBalanceProbe15(sc.Dir, balanceProgs[lo:hi]); msg != "" {
+			meta.Direct = append(meta.Direct, DirectViolation{Key: "pool-balance", What: msg, Case: map[string]interface{}{"programs": balanceSQL[lo:hi]}})
+			break
+		}
 	}
 
 	// ---- deterministic probes of the property itself (findings) ---------------------------------------
